@@ -227,7 +227,13 @@ pub fn run(ctx: &Ctx) -> (Stats, Report) {
                         st.fail(i, Case::new(P, "last_day", vec![r.n as i128, t as i128], vec![]), m);
                         return;
                     }
-                    for &ym in &yms {
+                    // the fixed offsets, plus the offsets that reach the first / last supported
+                    // month from this date (and one month / one year beyond)
+                    let mut offs = yms.clone();
+                    if k == 0 {
+                        offs.extend(super::c09::offsets_for(r, seed, i, true).into_iter().filter(|x| x.abs() > 13));
+                    }
+                    for &ym in &offs {
                         st.evaluations += 1;
                         st.nontrivial_enum += 1;
                         if let Err(m) = check_add_ym(r.n, t, ym) {
